@@ -1,1 +1,659 @@
-Require Import QV.C07.Model.
+(* C07 — lemmas: publications in progress, receiver logs, table keys. *)
+From Coq Require Import List NArith ZArith Bool Arith Lia.
+Require Import QV.C07.Model QV.C07.ProofsLib.
+Import ListNotations.
+Open Scope N_scope.
+
+(* ------------------------------------------------------------------ frames *)
+(* the part of a node only the publish steps and signal delivery touch *)
+Definition pubpart (n : node) := (n_name n, n_jobs n, n_log n, n_jobctr n).
+(* the part only the table handlers touch *)
+Definition namepart (n : node) := n_name n.
+
+Ltac crush_match :=
+  repeat match goal with
+         | |- context [match ?x with _ => _ end] => destruct x eqn:?; simpl
+         | |- context [if ?x then _ else _] => destruct x eqn:?; simpl
+         end.
+
+Lemma complete_pub n id ok : pubpart (fst (complete n id ok)) = pubpart n.
+Proof. unfold complete. crush_match; reflexivity. Qed.
+
+Lemma send_req_pub n id q : pubpart (fst (send_req n id q)) = pubpart n.
+Proof.
+  unfold send_req. destruct (can_send n (pq_ctx q)); [reflexivity|].
+  destruct (complete n id false) as [n1 r1] eqn:E1.
+  assert (H1 : pubpart n1 = pubpart n) by (rewrite <- (complete_pub n id false), E1; reflexivity).
+  destruct r1 as [[id2 q2]|]; simpl; [|exact H1].
+  rewrite complete_pub. exact H1.
+Qed.
+
+Lemma handle_reply_pub n id ok : pubpart (fst (handle_reply n id ok)) = pubpart n.
+Proof.
+  unfold handle_reply. destruct (complete n id ok) as [n1 r1] eqn:E1.
+  assert (H1 : pubpart n1 = pubpart n) by (rewrite <- (complete_pub n id ok), E1; reflexivity).
+  destruct r1 as [[id2 q2]|]; simpl; [|exact H1].
+  rewrite send_req_pub. exact H1.
+Qed.
+
+Lemma remove_local_pub n k r : pubpart (fst (remove_local n k r)) = pubpart n.
+Proof. unfold remove_local. crush_match; reflexivity. Qed.
+
+Lemma sub_remote_pub n call c p s r : pubpart (fst (sub_remote n call c p s r)) = pubpart n.
+Proof.
+  unfold sub_remote.
+  destruct (alookup str_eqb (key3 c p s) (n_lsubs n)) as [[|x l]|]; try reflexivity;
+  (destruct (alookup str_eqb (key3 c p s) (n_pname n)); [reflexivity|]);
+  unfold new_request;
+  match goal with |- context [send_req ?a ?b ?c] => pose proof (send_req_pub a b c) as H; destruct (send_req a b c) end;
+  simpl in *; rewrite H; reflexivity.
+Qed.
+
+Lemma unsub_remote_pub n c p s r : pubpart (fst (unsub_remote n c p s r)) = pubpart n.
+Proof.
+  unfold unsub_remote. pose proof (remove_local_pub n (key3 c p s) r) as H0.
+  destruct (remove_local n (key3 c p s) r) as [n1 last]. simpl in H0.
+  destruct last; [|simpl; exact H0].
+  destruct (alookup str_eqb (key3 c p s) (n_pname n1)); [simpl; exact H0|].
+  unfold new_request.
+  match goal with |- context [send_req ?a ?b ?c] => pose proof (send_req_pub a b c) as H; destruct (send_req a b c) end.
+  simpl in *. rewrite H. exact H0.
+Qed.
+
+Lemma err_replies_pub ids : forall n, pubpart (fst (err_replies n ids)) = pubpart n.
+Proof.
+  induction ids as [|id r IH]; intro n; simpl; [reflexivity|].
+  pose proof (handle_reply_pub n id false) as H. destruct (handle_reply n id false) as [n1 o1]. simpl in H.
+  specialize (IH n1). destruct (err_replies n1 r) as [n2 o2]. simpl in *. congruence.
+Qed.
+
+Definition touches_pub (i : input) : bool :=
+  match i with
+  | IPubBegin _ _ _ | IPubDeliver _ _ | IPubSnapRemote _ | IPubSend _ _ | IRecv _ (MSignal _ _ _ _) => true
+  | _ => false
+  end.
+
+Lemma some_fst {A B} (x : A * B) a b : Some x = Some (a, b) -> a = fst x.
+Proof. intro H. inversion H. reflexivity. Qed.
+
+Ltac fst_of H := apply some_fst in H; rewrite H; clear H.
+
+Lemma step_pub n i n' os : node_step n i = Some (n', os) -> touches_pub i = false -> pubpart n' = pubpart n.
+Proof.
+  intros H Ht. destruct i; simpl in Ht; try discriminate; simpl in H.
+  - (* ISub *)
+    destruct (negb (names_ok (resolve_ctx n c) p s)); [fst_of H; reflexivity|].
+    destruct (str_eqb (resolve_ctx n c) (n_name n)).
+    + fst_of H. unfold sub_local, add_local. crush_match; reflexivity.
+    + fst_of H. apply sub_remote_pub.
+  - destruct (alookup N.eqb call (n_done n)); [|discriminate]. fst_of H. reflexivity.
+  - destruct (negb (names_ok (resolve_ctx n c) p s)); [fst_of H; reflexivity|].
+    destruct (str_eqb (resolve_ctx n c) (n_name n)).
+    + fst_of H. apply remove_local_pub.
+    + fst_of H. apply unsub_remote_pub.
+  - fst_of H. reflexivity.
+  - fst_of H. unfold object_removed. reflexivity.
+  - destruct m; try discriminate; fst_of H.
+    + unfold handle_sub_request, add_remote, remove_remote. crush_match; reflexivity.
+    + apply handle_reply_pub.
+    + reflexivity.
+  - fst_of H. apply handle_reply_pub.
+  - fst_of H. reflexivity.
+  - fst_of H. unfold peer_removed. reflexivity.
+Qed.
+
+Lemma step_name n i n' os : node_step n i = Some (n', os) -> n_name n' = n_name n.
+Proof.
+  intro H. destruct (touches_pub i) eqn:Ht.
+  - destruct i; simpl in Ht; try discriminate; simpl in H.
+    + destruct (negb (valid_name p && valid_name s)); fst_of H; reflexivity.
+    + destruct (find_job j (n_jobs n)); [|discriminate]. destruct (smem N.eqb r (j_todo j0)); [|discriminate]. fst_of H; reflexivity.
+    + destruct (find_job j (n_jobs n)); [|discriminate]. destruct (j_todo j0); [|discriminate].
+      destruct (j_rsnap j0); [discriminate|]. fst_of H; reflexivity.
+    + destruct (find_job j (n_jobs n)); [|discriminate]. destruct (smem str_eqb x (j_rtodo j0)); [|discriminate]. fst_of H; reflexivity.
+    + destruct m; try discriminate. fst_of H. unfold deliver_remote. crush_match; reflexivity.
+  - pose proof (step_pub _ _ _ _ H Ht) as E. unfold pubpart in E. congruence.
+Qed.
+
+(* ------------------------------------------------------------------ jobs *)
+Lemma find_job_In j l b : find_job j l = Some b -> In b l /\ j_id b = j.
+Proof.
+  induction l as [|c r IH]; simpl; [discriminate|].
+  destruct (j_id c =? j) eqn:E.
+  - intro H. inversion H; subst. apply N.eqb_eq in E. auto.
+  - intro H. destruct (IH H). auto.
+Qed.
+
+Lemma In_put_job b' l b :
+  NoDup (map j_id l) -> In b (put_job b' l) -> b = b' \/ (In b l /\ j_id b <> j_id b').
+Proof.
+  induction l as [|c r IH]; simpl; [tauto|]. intro ND. inversion ND; subst.
+  destruct (j_id c =? j_id b') eqn:E.
+  - apply N.eqb_eq in E. intros [H|H]; [left; auto|].
+    right. split; [right; exact H|]. intro Hid. apply H1. rewrite E, <- Hid. apply in_map. exact H.
+  - apply N.eqb_neq in E. intros [H|H].
+    + subst. right. split; [left; reflexivity | exact E].
+    + destruct (IH H2 H) as [->|[Hin Hid]]; [left; reflexivity | right; split; [right; exact Hin | exact Hid]].
+Qed.
+
+Lemma ids_put_job b' l : In (j_id b') (map j_id l) -> map j_id (put_job b' l) = map j_id l.
+Proof.
+  induction l as [|c r IH]; simpl; [tauto|].
+  destruct (j_id c =? j_id b') eqn:E.
+  - apply N.eqb_eq in E. intros _. simpl. congruence.
+  - apply N.eqb_neq in E. intros [H|H]; [congruence|]. simpl. rewrite IH; auto.
+Qed.
+
+Lemma put_job_has b' l : In (j_id b') (map j_id l) -> In b' (put_job b' l).
+Proof.
+  induction l as [|c r IH]; simpl; [tauto|].
+  destruct (j_id c =? j_id b') eqn:E; [intros _; left; reflexivity|].
+  apply N.eqb_neq in E. intros [H|H]; [congruence | right; apply IH; exact H].
+Qed.
+
+(* log entries of publication j of this context for receiver r *)
+Definition is_local (nm : name) (j : N) (r : N) (e : logent) : bool :=
+  let '(r', (c, _, _, _), j') := e in N.eqb r' r && str_eqb c nm && N.eqb j' j.
+Definition cnt (nm : name) (j r : N) (log : list logent) : nat := length (filter (is_local nm j r) log).
+
+Definition input_ok (nm : name) (i : input) : Prop :=
+  match i with IRecv from _ => from <> nm | _ => True end.
+
+Definition lists_nodup (n : node) : Prop :=
+  (forall k l, In (k, l) (n_lsubs n) -> NoDup l) /\
+  (forall k q, In (k, q) (n_pname n) -> NoDup (pq_recv q)) /\
+  (forall k l, In (k, l) (n_rsubs n) -> NoDup l).
+
+Definition job_ok (nm : name) (log : list logent) (b : job) : Prop :=
+  NoDup (j_snap b) /\ NoDup (j_todo b) /\ (forall r, In r (j_todo b) -> In r (j_snap b)) /\
+  (forall r, cnt nm (j_id b) r log = if smem N.eqb r (j_snap b) && negb (smem N.eqb r (j_todo b)) then 1%nat else 0%nat) /\
+  match j_rsnap b with
+  | None => j_rtodo b = []
+  | Some l => NoDup l /\ NoDup (j_rtodo b) /\ (forall x, In x (j_rtodo b) -> In x l) /\ j_todo b = []
+  end.
+
+Definition JInv (nm : name) (n : node) : Prop :=
+  n_name n = nm /\
+  (forall b, In b (n_jobs n) -> j_id b < n_jobctr n) /\
+  NoDup (map j_id (n_jobs n)) /\
+  (forall b, In b (n_jobs n) -> job_ok nm (n_log n) b) /\
+  (forall r c p s a j, In (r, (c, p, s, a), j) (n_log n) -> c = nm ->
+     exists b, In b (n_jobs n) /\ j_id b = j /\ j_pub b = p /\ j_sig b = s /\ j_args b = a /\ In r (j_snap b)) /\
+  lists_nodup n.
+
+(* ------------------------------------------------------------------ receiver / peer lists are sets *)
+Definition LN (n : node) : Prop :=
+  vals_ok (@NoDup N) (n_lsubs n) /\ vals_ok (fun q => NoDup (pq_recv q)) (n_pname n) /\ vals_ok (@NoDup name) (n_rsubs n).
+
+Lemma LN_lists n : LN n <-> lists_nodup n.
+Proof. unfold LN, lists_nodup, vals_ok. tauto. Qed.
+
+Lemma NoDup_sadd_N x l : NoDup l -> NoDup (sadd N.eqb x l).
+Proof. apply NoDup_sadd, N.eqb_eq. Qed.
+Lemma NoDup_sadd_S x l : NoDup l -> NoDup (sadd str_eqb x l).
+Proof. apply NoDup_sadd, str_eqb_spec. Qed.
+Lemma NoDup_sdel_N x l : NoDup l -> NoDup (sdel N.eqb x l).
+Proof. apply NoDup_sdel. Qed.
+Lemma NoDup_sdel_S x l : NoDup l -> NoDup (sdel str_eqb x l).
+Proof. apply NoDup_sdel. Qed.
+Lemma NoDup_sunion_N l m : NoDup l -> NoDup (sunion N.eqb l m).
+Proof. apply NoDup_sunion, N.eqb_eq. Qed.
+Lemma NoDup_one {A} (x : A) : NoDup [x].
+Proof. constructor; [simpl; tauto | constructor]. Qed.
+
+#[export] Hint Resolve vals_aset vals_aremove vals_filter NoDup_sadd_N NoDup_sadd_S NoDup_sdel_N NoDup_sdel_S
+  NoDup_sunion_N NoDup_one NoDup_nil : tab.
+
+Ltac lookups :=
+  repeat match goal with
+         | H : alookup str_eqb ?k ?t = Some ?v, Hv : vals_ok ?P ?t |- _ =>
+             let T := eval cbv beta in (P v) in
+             lazymatch goal with
+             | _ : T |- _ => fail
+             | _ => let Hn := fresh "Hlk" in
+                    assert (Hn : T) by (exact (vals_lookup str_eqb str_eqb_spec P k v t Hv H))
+             end
+         end.
+
+Lemma vals_aset_preq k v (t : list (str * preq)) :
+  vals_ok (fun q => NoDup (pq_recv q)) t -> NoDup (pq_recv v) -> vals_ok (fun q => NoDup (pq_recv q)) (aset str_eqb k v t).
+Proof. intros. apply vals_aset; assumption. Qed.
+
+Ltac ln_tac :=
+  crush_match; unfold LN in *; simpl in *;
+  repeat match goal with H : _ /\ _ |- _ => destruct H end;
+  lookups; repeat split; simpl;
+  try (apply vals_aset_preq; simpl); eauto 7 with tab; fail.
+
+Lemma complete_LN n id ok : LN n -> LN (fst (complete n id ok)).
+Proof. intro H. unfold complete. ln_tac. Qed.
+
+Lemma send_req_LN n id q : LN n -> LN (fst (send_req n id q)).
+Proof.
+  intro H. unfold send_req. destruct (can_send n (pq_ctx q)); [exact H|].
+  pose proof (complete_LN n id false H) as H1. destruct (complete n id false) as [n1 r1]. simpl in H1.
+  destruct r1 as [[id2 q2]|]; simpl; [|exact H1]. apply complete_LN. exact H1.
+Qed.
+
+Lemma handle_reply_LN n id ok : LN n -> LN (fst (handle_reply n id ok)).
+Proof.
+  intro H. unfold handle_reply.
+  pose proof (complete_LN n id ok H) as H1. destruct (complete n id ok) as [n1 r1]. simpl in H1.
+  destruct r1 as [[id2 q2]|]; simpl; [|exact H1]. apply send_req_LN. exact H1.
+Qed.
+
+Lemma remove_local_LN n k r : LN n -> LN (fst (remove_local n k r)).
+Proof. intro H. unfold remove_local. ln_tac. Qed.
+
+Lemma sub_remote_LN n call c p s r : LN n -> LN (fst (sub_remote n call c p s r)).
+Proof.
+  intro H. unfold sub_remote.
+  destruct (alookup str_eqb (key3 c p s) (n_lsubs n)) as [[|x l]|] eqn:El.
+  2: { ln_tac. }
+  all: destruct (alookup str_eqb (key3 c p s) (n_pname n)) as [q|] eqn:Eq; [solve [ln_tac]|];
+    unfold new_request;
+    match goal with |- context [send_req ?a ?b ?c] =>
+      assert (Ha : LN a) by ln_tac; pose proof (send_req_LN a b c Ha) as Hs; destruct (send_req a b c) end;
+    exact Hs.
+Qed.
+
+Lemma unsub_remote_LN n c p s r : LN n -> LN (fst (unsub_remote n c p s r)).
+Proof.
+  intro H. unfold unsub_remote. pose proof (remove_local_LN n (key3 c p s) r H) as H0.
+  destruct (remove_local n (key3 c p s) r) as [n1 last]. simpl in H0.
+  destruct last; [|exact H0].
+  destruct (alookup str_eqb (key3 c p s) (n_pname n1)); [exact H0|].
+  unfold new_request.
+  match goal with |- context [send_req ?a ?b ?c] =>
+    assert (Ha : LN a) by ln_tac; pose proof (send_req_LN a b c Ha) as Hs; destruct (send_req a b c) end.
+  exact Hs.
+Qed.
+
+Lemma vals_flat_peer x (t : list (str * list name)) :
+  vals_ok (@NoDup name) t ->
+  vals_ok (@NoDup name)
+    (flat_map (fun e => if smem str_eqb x (snd e) then
+                          let l' := sdel str_eqb x (snd e) in if is_nil l' then [] else [(fst e, l')]
+                        else [e]) t).
+Proof.
+  intros Ht k v Hin. apply in_flat_map in Hin as [[k0 l0] [Hin0 Hin]]. simpl in Hin.
+  destruct (smem str_eqb x l0).
+  - destruct (is_nil (sdel str_eqb x l0)); [destruct Hin|]. destruct Hin as [Hin|[]]. inversion Hin; subst.
+    apply NoDup_sdel_S. eapply Ht; eauto.
+  - destruct Hin as [Hin|[]]. inversion Hin; subst. eapply Ht; eauto.
+Qed.
+
+Lemma step_LN n i n' os : node_step n i = Some (n', os) -> LN n -> LN n'.
+Proof.
+  intros H Hn. destruct i; simpl in H.
+  - destruct (negb (names_ok (resolve_ctx n c) p s)); [fst_of H; exact Hn|].
+    destruct (str_eqb (resolve_ctx n c) (n_name n)).
+    + fst_of H. unfold sub_local, add_local. ln_tac.
+    + fst_of H. apply sub_remote_LN. exact Hn.
+  - destruct (alookup N.eqb call (n_done n)); [|discriminate]. fst_of H. exact Hn.
+  - destruct (negb (names_ok (resolve_ctx n c) p s)); [fst_of H; exact Hn|].
+    destruct (str_eqb (resolve_ctx n c) (n_name n)).
+    + fst_of H. apply remove_local_LN. exact Hn.
+    + fst_of H. apply unsub_remote_LN. exact Hn.
+  - destruct (negb (valid_name p && valid_name s)); fst_of H; exact Hn.
+  - destruct (find_job j (n_jobs n)); [|discriminate]. destruct (smem N.eqb r (j_todo j0)); [|discriminate]. fst_of H. exact Hn.
+  - destruct (find_job j (n_jobs n)); [|discriminate]. destruct (j_todo j0); [|discriminate].
+    destruct (j_rsnap j0); [discriminate|]. fst_of H. exact Hn.
+  - destruct (find_job j (n_jobs n)); [|discriminate]. destruct (smem str_eqb x (j_rtodo j0)); [|discriminate]. fst_of H. exact Hn.
+  - fst_of H. exact Hn.
+  - fst_of H. unfold object_removed. ln_tac.
+  - destruct m; fst_of H.
+    + unfold deliver_remote. ln_tac.
+    + unfold handle_sub_request, add_remote, remove_remote. ln_tac.
+    + apply handle_reply_LN. exact Hn.
+    + ln_tac.
+  - fst_of H. apply handle_reply_LN. exact Hn.
+  - fst_of H. exact Hn.
+  - fst_of H. unfold peer_removed. destruct Hn as (H1 & H2 & H3). unfold LN. simpl. repeat split; auto with tab.
+    apply vals_flat_peer. exact H3.
+Qed.
+
+(* ------------------------------------------------------------------ the publication invariant *)
+Lemma cnt_cons nm j r e log :
+  cnt nm j r (e :: log) = ((if is_local nm j r e then 1 else 0) + cnt nm j r log)%nat.
+Proof. unfold cnt. simpl. destruct (is_local nm j r e); reflexivity. Qed.
+
+Lemma cnt_app_other nm j r new log :
+  (forall e, In e new -> is_local nm j r e = false) -> cnt nm j r (new ++ log) = cnt nm j r log.
+Proof.
+  intro H. induction new as [|e new IH]; simpl; [reflexivity|].
+  rewrite cnt_cons, (H e (or_introl eq_refl)). simpl. apply IH. intros e' He'. apply H. right. exact He'.
+Qed.
+
+Lemma is_local_true nm j r e :
+  is_local nm j r e = true <-> exists p s a, e = (r, (nm, p, s, a), j).
+Proof.
+  destruct e as [[r' [[[c p] s] a]] j']. simpl. split.
+  - intro H. apply andb_true_iff in H as [H H3]. apply andb_true_iff in H as [H1 H2].
+    apply N.eqb_eq in H1, H3. apply str_eqb_spec in H2. subst. eauto.
+  - intros (p0 & s0 & a0 & E). inversion E; subst. rewrite !N.eqb_refl, str_eqb_refl. reflexivity.
+Qed.
+
+Ltac jsplit := unfold JInv; split; [|split; [|split; [|split; [|split]]]].
+
+Lemma JInv_frame nm n n' : pubpart n' = pubpart n -> LN n' -> JInv nm n -> JInv nm n'.
+Proof.
+  unfold pubpart. intros E HL (H0 & H1 & H2 & H3 & H4 & H5). inversion E as [[E1 E2 E3 E4]].
+  unfold JInv. rewrite E1, E2, E3, E4. jsplit; try assumption.
+Qed.
+
+Lemma smem_N_In x l : smem N.eqb x l = true <-> In x l.
+Proof. apply smem_In, N.eqb_eq. Qed.
+Lemma smem_S_In x l : smem str_eqb x l = true <-> In x l.
+Proof. apply smem_In, str_eqb_spec. Qed.
+
+Lemma opt_list_nodup {A} (t : list (str * list A)) k :
+  vals_ok (@NoDup A) t -> NoDup (opt_list (alookup str_eqb k t)).
+Proof.
+  intro H. destruct (alookup str_eqb k t) eqn:E; simpl; [|constructor].
+  eapply (vals_lookup str_eqb str_eqb_spec); eauto.
+Qed.
+
+Lemma step_JInv nm n i n' os :
+  node_step n i = Some (n', os) -> input_ok nm i -> JInv nm n -> JInv nm n'.
+Proof.
+  intros H Hi HJ.
+  assert (HL' : LN n') by (eapply step_LN; [exact H | apply LN_lists; apply HJ]).
+  destruct (touches_pub i) eqn:Ht.
+  2: { apply (JInv_frame nm n n'); [eapply step_pub; eauto | exact HL' | exact HJ]. }
+  destruct HJ as (H0 & H1 & H2 & H3 & H4 & H5).
+  destruct i; simpl in Ht; try discriminate; simpl in H.
+  - (* IPubBegin *)
+    destruct (negb (valid_name p && valid_name s)).
+    + fst_of H. jsplit; simpl; try assumption. intros b Hb. specialize (H1 b Hb). lia.
+    + fst_of H.
+      assert (Hfresh : forall r, cnt nm (n_jobctr n) r (n_log n) = 0%nat).
+      { intro r. unfold cnt. destruct (filter (is_local nm (n_jobctr n) r) (n_log n)) as [|e l] eqn:Ef; [reflexivity|].
+        assert (Hin : In e (filter (is_local nm (n_jobctr n) r) (n_log n))) by (rewrite Ef; left; reflexivity).
+        apply filter_In in Hin as [Hin Hl]. apply is_local_true in Hl as (p0 & s0 & a0 & ->).
+        destruct (H4 _ _ _ _ _ _ Hin eq_refl) as (b & Hb & Hid & _). specialize (H1 b Hb). lia. }
+      jsplit; simpl; try assumption.
+      * intros b Hb. apply in_app_iff in Hb as [Hb|[<-|[]]]; [specialize (H1 b Hb); lia | simpl; lia].
+      * rewrite map_app. simpl. apply NoDup_snoc; [assumption|].
+        intro Hin. apply in_map_iff in Hin as [b [Hid Hb]]. specialize (H1 b Hb). lia.
+      * intros b Hb. apply in_app_iff in Hb as [Hb|[<-|[]]]; [apply H3; exact Hb|].
+        unfold job_ok. simpl. rewrite H0.
+        assert (ND : NoDup (opt_list (alookup str_eqb (key3 nm p s) (n_lsubs n)))) by (apply opt_list_nodup; exact (proj1 H5)).
+        repeat split; try assumption; try tauto.
+        intro r. rewrite Hfresh. destruct (smem N.eqb r _); reflexivity.
+      * intros r c p0 s0 a0 j Hin Hc. destruct (H4 _ _ _ _ _ _ Hin Hc) as (b & Hb & Hrest).
+        exists b. split; [apply in_app_iff; left; exact Hb | exact Hrest].
+  - (* IPubDeliver *)
+    destruct (find_job j (n_jobs n)) as [b|] eqn:Ef; [|discriminate].
+    destruct (smem N.eqb r (j_todo b)) eqn:Er; [|discriminate]. fst_of H.
+    apply find_job_In in Ef as [Hb Hid]. apply smem_N_In in Er.
+    destruct (H3 b Hb) as (K1 & K2 & K3 & K4 & K5).
+    assert (Hrs : j_rsnap b = None).
+    { destruct (j_rsnap b); [|reflexivity]. destruct K5 as (_ & _ & _ & K5). rewrite K5 in Er. destruct Er. }
+    set (b' := mkJob (j_id b) (j_pub b) (j_sig b) (j_args b) (j_snap b) (sdel N.eqb r (j_todo b)) (j_rsnap b) (j_rtodo b)).
+    assert (Hidin : In (j_id b') (map j_id (n_jobs n))) by (simpl; apply in_map; exact Hb).
+    jsplit; simpl; try assumption.
+    + intros b2 Hb2. apply In_put_job in Hb2 as [->|[Hb2 _]]; [simpl; apply H1; exact Hb | apply H1; exact Hb2 | assumption].
+    + rewrite ids_put_job; assumption.
+    + intros b2 Hb2. apply In_put_job in Hb2 as [->|[Hb2 Hne]]; [| |assumption].
+      * unfold job_ok. simpl. rewrite Hrs. rewrite Hrs in K5. repeat split; try assumption.
+        -- apply NoDup_sdel_N. exact K2.
+        -- intros r0 Hr0. apply (In_sdel N.eqb N.eqb_eq) in Hr0 as [_ Hr0]. apply K3. exact Hr0.
+        -- intro r0. rewrite cnt_cons, K4. subst j. rewrite H0.
+           destruct (N.eq_dec r0 r) as [->|Hne].
+           ++ simpl. rewrite !N.eqb_refl, str_eqb_refl. simpl.
+              assert (E1 : smem N.eqb r (j_snap b) = true) by (apply smem_N_In; apply K3; exact Er).
+              assert (E2 : smem N.eqb r (j_todo b) = true) by (apply smem_N_In; exact Er).
+              assert (E3 : smem N.eqb r (sdel N.eqb r (j_todo b)) = false).
+              { apply (smem_false N.eqb N.eqb_eq). intro Hx. apply (In_sdel N.eqb N.eqb_eq) in Hx as [Hx _]. congruence. }
+              rewrite E1, E2, E3. reflexivity.
+           ++ simpl. replace (r =? r0) with false by (symmetry; apply N.eqb_neq; congruence). simpl.
+              assert (E3 : smem N.eqb r0 (sdel N.eqb r (j_todo b)) = smem N.eqb r0 (j_todo b)).
+              { destruct (smem N.eqb r0 (j_todo b)) eqn:Eold.
+                - apply smem_N_In. apply (In_sdel N.eqb N.eqb_eq). split; [exact Hne | apply smem_N_In; exact Eold].
+                - apply (smem_false N.eqb N.eqb_eq). intro Hx. apply (In_sdel N.eqb N.eqb_eq) in Hx as [_ Hx].
+                  apply smem_N_In in Hx. congruence. }
+              rewrite E3. reflexivity.
+      * destruct (H3 b2 Hb2) as (L1 & L2 & L3 & L4 & L5). unfold job_ok. repeat split; try assumption.
+        intro r0. rewrite cnt_cons, L4. simpl in Hne. subst j.
+        simpl. replace (j_id b =? j_id b2) with false by (symmetry; apply N.eqb_neq; congruence).
+        rewrite !andb_false_r. reflexivity.
+    + intros r0 c p s a j0 [Hin|Hin] Hc.
+      * inversion Hin; subst. exists b'. split; [apply put_job_has; exact Hidin|].
+        simpl. repeat split; try reflexivity. apply K3. exact Er.
+      * destruct (H4 _ _ _ _ _ _ Hin Hc) as (b2 & Hb2 & I1 & I2 & I3 & I4 & I5).
+        destruct (N.eq_dec (j_id b2) (j_id b)) as [Eid|Nid].
+        -- assert (b2 = b).
+           { clear - H2 Hb Hb2 Eid. induction (n_jobs n) as [|c l IH]; [destruct Hb|].
+             simpl in H2. inversion H2; subst. destruct Hb as [->|Hb], Hb2 as [->|Hb2]; try reflexivity.
+             - exfalso. apply H1. rewrite <- Eid. apply in_map. exact Hb2.
+             - exfalso. apply H1. rewrite Eid. apply in_map. exact Hb.
+             - apply IH; assumption. }
+           subst b2. exists b'. split; [apply put_job_has; exact Hidin|]. simpl. auto.
+        -- exists b2. split; [|auto].
+           clear - Hb2 Nid. induction (n_jobs n) as [|c l IH]; [destruct Hb2|]. simpl.
+           destruct (j_id c =? j_id b) eqn:E.
+           ++ apply N.eqb_eq in E. destruct Hb2 as [->|Hb2]; [congruence | right; exact Hb2].
+           ++ destruct Hb2 as [->|Hb2]; [left; reflexivity | right; apply IH; exact Hb2].
+  - (* IPubSnapRemote *)
+    destruct (find_job j (n_jobs n)) as [b|] eqn:Ef; [|discriminate].
+    destruct (j_todo b) eqn:Etodo; [|discriminate]. destruct (j_rsnap b) eqn:Ers; [discriminate|]. fst_of H.
+    apply find_job_In in Ef as [Hb Hid].
+    destruct (H3 b Hb) as (K1 & K2 & K3 & K4 & K5).
+    set (b' := mkJob (j_id b) (j_pub b) (j_sig b) (j_args b) (j_snap b) []
+                     (Some (opt_list (alookup str_eqb (key2 (j_pub b) (j_sig b)) (n_rsubs n))))
+                     (opt_list (alookup str_eqb (key2 (j_pub b) (j_sig b)) (n_rsubs n)))).
+    assert (Hidin : In (j_id b') (map j_id (n_jobs n))) by (simpl; apply in_map; exact Hb).
+    jsplit; simpl; try assumption.
+    + intros b2 Hb2. apply In_put_job in Hb2 as [->|[Hb2 _]]; [simpl; apply H1; exact Hb | apply H1; exact Hb2 | assumption].
+    + rewrite ids_put_job; assumption.
+    + intros b2 Hb2. apply In_put_job in Hb2 as [->|[Hb2 Hne]]; [| apply H3; exact Hb2 | assumption].
+      unfold job_ok. simpl. rewrite Etodo in *.
+      assert (ND : NoDup (opt_list (alookup str_eqb (key2 (j_pub b) (j_sig b)) (n_rsubs n)))) by (apply opt_list_nodup; exact (proj2 (proj2 H5))).
+      repeat split; try assumption; try tauto.
+    + intros r0 c p s a j0 Hin Hc.
+      destruct (H4 _ _ _ _ _ _ Hin Hc) as (b2 & Hb2 & I1 & I2 & I3 & I4 & I5).
+      destruct (N.eq_dec (j_id b2) (j_id b)) as [Eid|Nid].
+      * assert (b2 = b).
+        { clear - H2 Hb Hb2 Eid. induction (n_jobs n) as [|c l IH]; [destruct Hb|].
+          simpl in H2. inversion H2; subst. destruct Hb as [->|Hb], Hb2 as [->|Hb2]; try reflexivity.
+          - exfalso. apply H1. rewrite <- Eid. apply in_map. exact Hb2.
+          - exfalso. apply H1. rewrite Eid. apply in_map. exact Hb.
+          - apply IH; assumption. }
+        subst b2. exists b'. split; [apply put_job_has; exact Hidin|]. simpl. auto.
+      * exists b2. split; [|auto].
+        clear - Hb2 Nid. induction (n_jobs n) as [|c l IH]; [destruct Hb2|]. simpl.
+        destruct (j_id c =? j_id b) eqn:E.
+        -- apply N.eqb_eq in E. destruct Hb2 as [->|Hb2]; [congruence | right; exact Hb2].
+        -- destruct Hb2 as [->|Hb2]; [left; reflexivity | right; apply IH; exact Hb2].
+  - (* IPubSend *)
+    destruct (find_job j (n_jobs n)) as [b|] eqn:Ef; [|discriminate].
+    destruct (smem str_eqb x (j_rtodo b)) eqn:Ex; [|discriminate]. fst_of H.
+    apply find_job_In in Ef as [Hb Hid]. apply smem_S_In in Ex.
+    destruct (H3 b Hb) as (K1 & K2 & K3 & K4 & K5).
+    set (b' := mkJob (j_id b) (j_pub b) (j_sig b) (j_args b) (j_snap b) (j_todo b) (j_rsnap b) (sdel str_eqb x (j_rtodo b))).
+    assert (Hidin : In (j_id b') (map j_id (n_jobs n))) by (simpl; apply in_map; exact Hb).
+    jsplit; simpl; try assumption.
+    + intros b2 Hb2. apply In_put_job in Hb2 as [->|[Hb2 _]]; [simpl; apply H1; exact Hb | apply H1; exact Hb2 | assumption].
+    + rewrite ids_put_job; assumption.
+    + intros b2 Hb2. apply In_put_job in Hb2 as [->|[Hb2 Hne]]; [| apply H3; exact Hb2 | assumption].
+      unfold job_ok. simpl. repeat split; try assumption.
+      destruct (j_rsnap b) as [l|]; [|rewrite K5 in Ex; destruct Ex].
+      destruct K5 as (M1 & M2 & M3 & M4). repeat split; try assumption.
+      * apply NoDup_sdel_S. exact M2.
+      * intros y Hy. apply (In_sdel str_eqb str_eqb_spec) in Hy as [_ Hy]. apply M3. exact Hy.
+    + intros r0 c p s a j0 Hin Hc.
+      destruct (H4 _ _ _ _ _ _ Hin Hc) as (b2 & Hb2 & I1 & I2 & I3 & I4 & I5).
+      destruct (N.eq_dec (j_id b2) (j_id b)) as [Eid|Nid].
+      * assert (b2 = b).
+        { clear - H2 Hb Hb2 Eid. induction (n_jobs n) as [|c l IH]; [destruct Hb|].
+          simpl in H2. inversion H2; subst. destruct Hb as [->|Hb], Hb2 as [->|Hb2]; try reflexivity.
+          - exfalso. apply H1. rewrite <- Eid. apply in_map. exact Hb2.
+          - exfalso. apply H1. rewrite Eid. apply in_map. exact Hb.
+          - apply IH; assumption. }
+        subst b2. exists b'. split; [apply put_job_has; exact Hidin|]. simpl. auto.
+      * exists b2. split; [|auto].
+        clear - Hb2 Nid. induction (n_jobs n) as [|c l IH]; [destruct Hb2|]. simpl.
+        destruct (j_id c =? j_id b) eqn:E.
+        -- apply N.eqb_eq in E. destruct Hb2 as [->|Hb2]; [congruence | right; exact Hb2].
+        -- destruct Hb2 as [->|Hb2]; [left; reflexivity | right; apply IH; exact Hb2].
+  - (* IRecv signal *)
+    destruct m; try discriminate. fst_of H. simpl in Hi.
+    unfold deliver_remote. destruct (alookup str_eqb (key3 from pub sig) (n_lsubs n)) as [rs|] eqn:El; simpl;
+      [|jsplit; assumption].
+    assert (Hnew : forall e, In e (rev (mk_entries from pub sig a j rs)) -> exists r, e = (r, (from, pub, sig, a), j)).
+    { intros e He. apply in_rev in He. unfold mk_entries in He. apply in_map_iff in He as [r [<- _]]. eauto. }
+    jsplit; simpl; try assumption.
+    + intros b Hb. destruct (H3 b Hb) as (K1 & K2 & K3 & K4 & K5). unfold job_ok. repeat split; try assumption.
+      intro r. rewrite cnt_app_other; [apply K4|].
+      intros e He. destruct (Hnew e He) as [r0 ->]. simpl.
+      replace (str_eqb from nm) with false by (symmetry; apply str_eqb_neq; exact Hi).
+      rewrite andb_false_r. reflexivity.
+    + intros r c p s a0 j0 Hin Hc. apply in_app_iff in Hin as [Hin|Hin].
+      * destruct (Hnew _ Hin) as [r0 E]. inversion E; subst. contradiction.
+      * eapply H4; eauto.
+Qed.
+
+(* ------------------------------------------------------------------ table keys are well formed *)
+Definition wf3 (k : str) : Prop := exists c p s, k = key3 c p s /\ nodot c = true /\ nodot p = true /\ nodot s = true.
+Definition wf2 (k : str) : Prop := exists p s, k = key2 p s /\ nodot p = true /\ nodot s = true.
+
+Definition KW (n : node) : Prop :=
+  nodot (n_name n) = true /\ keys_ok wf3 (n_lsubs n) /\ keys_ok wf3 (n_pname n) /\ keys_ok wf2 (n_rsubs n).
+
+Definition input_wf (i : input) : Prop :=
+  match i with IRecv _ (MSubReq _ p s true) => nodot p = true /\ nodot s = true | _ => True end.
+
+Lemma names_ok_wf3 c p s : names_ok c p s = true -> wf3 (key3 c p s).
+Proof.
+  unfold names_ok. intro H. apply andb_true_iff in H as [H H3]. apply andb_true_iff in H as [H1 H2].
+  exists c, p, s. repeat split; try reflexivity; apply valid_nodot; assumption.
+Qed.
+
+Lemma kok_aset_S {V} P k (v : V) t : keys_ok P t -> P k -> keys_ok P (aset str_eqb k v t).
+Proof. apply kok_aset, str_eqb_spec. Qed.
+
+#[export] Hint Resolve kok_aset_S kok_aremove kok_filter : tab.
+
+Ltac klookups :=
+  repeat match goal with
+         | H : alookup str_eqb ?k ?t = Some ?v, Hv : keys_ok ?P ?t |- _ =>
+             lazymatch goal with
+             | _ : P k |- _ => fail
+             | _ => let Hn := fresh "Hkk" in
+                    assert (Hn : P k) by (exact (kok_lookup str_eqb str_eqb_spec P k v t Hv H))
+             end
+         end.
+
+Ltac kw_tac :=
+  crush_match; unfold KW in *; simpl in *;
+  repeat match goal with H : _ /\ _ |- _ => destruct H end;
+  klookups; repeat split; simpl; eauto 7 with tab; fail.
+
+Lemma complete_KW n id ok : KW n -> KW (fst (complete n id ok)).
+Proof. intro H. unfold complete. kw_tac. Qed.
+
+Lemma send_req_KW n id q : KW n -> KW (fst (send_req n id q)).
+Proof.
+  intro H. unfold send_req. destruct (can_send n (pq_ctx q)); [exact H|].
+  pose proof (complete_KW n id false H) as H1. destruct (complete n id false) as [n1 r1]. simpl in H1.
+  destruct r1 as [[id2 q2]|]; simpl; [|exact H1]. apply complete_KW. exact H1.
+Qed.
+
+Lemma handle_reply_KW n id ok : KW n -> KW (fst (handle_reply n id ok)).
+Proof.
+  intro H. unfold handle_reply.
+  pose proof (complete_KW n id ok H) as H1. destruct (complete n id ok) as [n1 r1]. simpl in H1.
+  destruct r1 as [[id2 q2]|]; simpl; [|exact H1]. apply send_req_KW. exact H1.
+Qed.
+
+Lemma remove_local_KW n k r : KW n -> KW (fst (remove_local n k r)).
+Proof. intro H. unfold remove_local. kw_tac. Qed.
+
+Lemma sub_remote_KW n call c p s r : KW n -> wf3 (key3 c p s) -> KW (fst (sub_remote n call c p s r)).
+Proof.
+  intros H Hk. unfold sub_remote.
+  destruct (alookup str_eqb (key3 c p s) (n_lsubs n)) as [[|x l]|] eqn:El.
+  2: { kw_tac. }
+  all: destruct (alookup str_eqb (key3 c p s) (n_pname n)) as [q|] eqn:Eq; [solve [kw_tac]|];
+    unfold new_request;
+    match goal with |- context [send_req ?a ?b ?c] =>
+      assert (Ha : KW a) by kw_tac; pose proof (send_req_KW a b c Ha) as Hs; destruct (send_req a b c) end;
+    exact Hs.
+Qed.
+
+Lemma unsub_remote_KW n c p s r : KW n -> wf3 (key3 c p s) -> KW (fst (unsub_remote n c p s r)).
+Proof.
+  intros H Hk. unfold unsub_remote. pose proof (remove_local_KW n (key3 c p s) r H) as H0.
+  destruct (remove_local n (key3 c p s) r) as [n1 last]. simpl in H0.
+  destruct last; [|exact H0].
+  destruct (alookup str_eqb (key3 c p s) (n_pname n1)); [exact H0|].
+  unfold new_request.
+  match goal with |- context [send_req ?a ?b ?c] =>
+    assert (Ha : KW a) by kw_tac; pose proof (send_req_KW a b c Ha) as Hs; destruct (send_req a b c) end.
+  exact Hs.
+Qed.
+
+Lemma resolve_names_ok n c p s :
+  nodot (n_name n) = true -> names_ok (resolve_ctx n c) p s = true -> wf3 (key3 (resolve_ctx n c) p s).
+Proof. intros _ H. apply names_ok_wf3. exact H. Qed.
+
+Lemma step_KW n i n' os : node_step n i = Some (n', os) -> input_wf i -> KW n -> KW n'.
+Proof.
+  intros H Hi Hn. destruct i; simpl in H.
+  - destruct (negb (names_ok (resolve_ctx n c) p s)) eqn:En; [fst_of H; exact Hn|].
+    apply negb_false_iff in En. pose proof (names_ok_wf3 _ _ _ En) as Hk.
+    destruct (str_eqb (resolve_ctx n c) (n_name n)) eqn:Ec.
+    + fst_of H. apply str_eqb_spec in Ec. rewrite Ec in Hk. unfold sub_local, add_local. kw_tac.
+    + fst_of H. apply sub_remote_KW; assumption.
+  - destruct (alookup N.eqb call (n_done n)); [|discriminate]. fst_of H. exact Hn.
+  - destruct (negb (names_ok (resolve_ctx n c) p s)) eqn:En; [fst_of H; exact Hn|].
+    apply negb_false_iff in En. pose proof (names_ok_wf3 _ _ _ En) as Hk.
+    destruct (str_eqb (resolve_ctx n c) (n_name n)).
+    + fst_of H. apply remove_local_KW. exact Hn.
+    + fst_of H. apply unsub_remote_KW; assumption.
+  - destruct (negb (valid_name p && valid_name s)); fst_of H; exact Hn.
+  - destruct (find_job j (n_jobs n)); [|discriminate]. destruct (smem N.eqb r (j_todo j0)); [|discriminate]. fst_of H. exact Hn.
+  - destruct (find_job j (n_jobs n)); [|discriminate]. destruct (j_todo j0); [|discriminate].
+    destruct (j_rsnap j0); [discriminate|]. fst_of H. exact Hn.
+  - destruct (find_job j (n_jobs n)); [|discriminate]. destruct (smem str_eqb x (j_rtodo j0)); [|discriminate]. fst_of H. exact Hn.
+  - fst_of H. exact Hn.
+  - fst_of H. unfold object_removed. kw_tac.
+  - destruct m; fst_of H.
+    + unfold deliver_remote. kw_tac.
+    + unfold handle_sub_request. destruct sub.
+      * simpl in Hi. destruct Hi as [Hp Hs]. assert (Hk : wf2 (key2 pub sig)) by (exists pub, sig; auto).
+        unfold add_remote. kw_tac.
+      * unfold remove_remote. kw_tac.
+    + apply handle_reply_KW. exact Hn.
+    + kw_tac.
+  - fst_of H. apply handle_reply_KW. exact Hn.
+  - fst_of H. exact Hn.
+  - fst_of H. unfold peer_removed. destruct Hn as (H1 & H2 & H3 & H4). unfold KW. simpl. repeat split; auto with tab.
+    intros k v Hin. apply in_flat_map in Hin as [[k0 l0] [Hin0 Hin]]. simpl in Hin.
+    destruct (smem str_eqb x l0).
+    + destruct (is_nil (sdel str_eqb x l0)); [destruct Hin|]. destruct Hin as [Hin|[]]. inversion Hin; subst. eapply H4; eauto.
+    + destruct Hin as [Hin|[]]. inversion Hin; subst. eapply H4; eauto.
+Qed.
+
+(* ------------------------------------------------------------------ runs *)
+Definition NInv (nm : name) (n : node) : Prop := JInv nm n /\ KW n.
+
+Lemma init_NInv nm objs : nodot nm = true -> NInv nm (init_node nm objs).
+Proof.
+  intro H. split.
+  - unfold JInv, init_node, lists_nodup. simpl. repeat split; try tauto; try constructor.
+  - unfold KW, init_node, keys_ok. simpl. repeat split; try tauto.
+Qed.
+
+Lemma run_NInv nm ins : forall n n' os,
+  node_run n ins = Some (n', os) -> Forall (fun i => input_ok nm i /\ input_wf i) ins -> NInv nm n -> NInv nm n'.
+Proof.
+  induction ins as [|i r IH]; simpl; intros n n' os H Hf Hn.
+  - inversion H; subst. exact Hn.
+  - destruct (node_step n i) as [[n1 o1]|] eqn:E; [|discriminate].
+    destruct (node_run n1 r) as [[n2 o2]|] eqn:E2; [|discriminate]. inversion H; subst.
+    inversion Hf as [|? ? [Hi1 Hi2] Hf']; subst. destruct Hn as [HJ HK].
+    eapply IH; [exact E2 | exact Hf' |].
+    split; [eapply step_JInv; eauto | eapply step_KW; eauto].
+Qed.
